@@ -198,6 +198,20 @@ def eval_case(ctx: Ctx, c: dict):
         r, v = outcome(lambda: dns.name.from_text(text, o), lambda x: enc_labels(x.labels))
         ctx.corr(f"n.fromtext {hx(text.encode('ascii'))} {'none' if origin is None else enc_labels(origin)}", r, c)
         ctx.count("fromtext." + r.split(" ")[0] + ("." + r.split(" ")[1] if not r.startswith("ok") else ""))
+        # the same text as bytes must give the same outcome, and the second escape automaton (from_unicode)
+        # must agree wherever IDNA does not come into play (no octet above 127 produced by an escape)
+        rb, _ = outcome(lambda: dns.name.from_text(text.encode("ascii"), o), lambda x: enc_labels(x.labels))
+        if rb != r:
+            ctx.fail("C01/from_text/bytes-vs-str", f"from_text({text!r}) -> {r} but from_text(bytes) -> {rb}", rep)
+        import re as _re
+        plain = (v is not None and all(b < 128 for l in v.labels for b in l)) or (v is None and not _re.search(r"\\[0-9]", text))
+        if plain:
+            ru, _ = outcome(lambda: dns.name.from_unicode(text, o), lambda x: enc_labels(x.labels))
+            ctx.count("fromtext.unicode-compared")
+            # both automata raise library errors for bad text, but not always the same one first (from_unicode
+            # encodes — and length-checks — each label as soon as it ends): only ok/err and the value are compared
+            if (ru != r) if (ru.startswith("ok") or r.startswith("ok")) else (not ru.startswith("err ")):
+                ctx.fail("C01/from_unicode/differs-from-from_text", f"from_unicode({text!r}, {origin!r}) -> {ru} but from_text -> {r}", rep)
         if r.startswith("FOREIGN"):
             ctx.fail("C01/from_text/foreign-exception:" + r.split(" ")[1], f"from_text({text!r}) -> {r}", rep)
         elif v is not None:
